@@ -129,6 +129,11 @@ def check_aggregators(inp):
   # 40 coordinates: two rounds with independent noise coincide with probability < 1e-8
   clients = [(b'c%d' % i, {'w': jnp.asarray(rs.randn(8, 4).astype(np.float32)), 'b': jnp.asarray(rs.randn(8).astype(np.float32))},
               float(rs.randint(1, 5))) for i in range(nc)]
+  if name == 'arithmetic':
+    # leaves that occupy fewer distinct levels than num_levels: a size-1 leaf, a constant leaf, a two-valued leaf
+    clients = [(cid, dict(p, one=jnp.asarray([0.7 + i_], jnp.float32), const=jnp.zeros(5, jnp.float32),
+                          two=jnp.asarray([1.0, -1.0, 1.0, -1.0, 1.0, 1.0], jnp.float32)), w)
+               for i_, (cid, p, w) in enumerate(clients)]
   state = agg.init()
   seen_keys = [np.asarray(state.rng).tolist()]
   prev_out = None
@@ -146,8 +151,14 @@ def check_aggregators(inp):
       # documented: the mean over this round's clients of the arithmetic code length of their quantized trees
       _, use = jax.random.split(st_key)
       seq = hk.PRNGSequence(use)
-      per_client = [sum(float(cp.arithmetic_encoding_num_bits(l)) for l in jax.tree_util.tree_leaves(quant(p, next(seq))))
-                    for _, p, _ in clients]
+      def code_len(leaf):
+        # documented: k * log2(e (d + k) / k) + d * H + 2 * 32 + 2, k = number of DISTINCT values present, H their entropy
+        v = np.nan_to_num(np.asarray(leaf, np.float64)).ravel()
+        _, counts = np.unique(v, return_counts=True)
+        k_, d_ = len(counts), v.size
+        pr = counts / d_
+        return k_ * np.log2(np.e * (d_ + k_) / k_) + d_ * float(-(pr * np.log2(pr)).sum()) + 66
+      per_client = [sum(code_len(l) for l in jax.tree_util.tree_leaves(quant(p, next(seq)))) for _, p, _ in clients]
       want_bits = sum(per_client) / len(per_client)
     else:
       want_bits = per_param * size + 64 * leaves
@@ -169,7 +180,7 @@ def check_aggregators(inp):
     # exact mean bound for the grid quantizers
     exact = tree_util.tree_mean(iter([(p, w) for _, p, w in clients]))
     if name in ('uniform', 'arithmetic'):
-      for k_ in ('w', 'b'):
+      for k_ in ('w', 'b'):  # (the extra small leaves of the arithmetic case are on-grid: exact)
         bound = max(float(p[k_].max() - p[k_].min()) / 3 for _, p, _ in clients)
         if float(jnp.abs(out[k_] - exact[k_]).max()) > bound + 1e-5:
           return f'{name}: aggregate further from the exact weighted mean than the largest per-client grid step'
